@@ -131,7 +131,7 @@ def gen_sim_case(rng):
 # ---------------------------------------------------------------------------------------------------------
 # running twins
 # ---------------------------------------------------------------------------------------------------------
-def run_worker(twin, hashseed, cases, repo=None, timeout=900):
+def run_worker(twin, hashseed, cases, repo=None, timeout=600):
     env = common.impl_python_env()
     repo = repo or common.REPO
     env["PYTHONPATH"] = repo + os.pathsep + os.path.join(common.VERIF, "harness")
@@ -269,8 +269,24 @@ def make_funcmap(facts):
 # ---------------------------------------------------------------------------------------------------------
 # allow-lists of props/C11.v (for targeting when the proof step broke, and for the stale-entry note)
 # ---------------------------------------------------------------------------------------------------------
+def _strip_comments_keep_strings(s):
+    out, depth, i, n = [], 0, 0, len(s)
+    while i < n:
+        if s.startswith("(*", i):
+            depth += 1
+            i += 2
+        elif s.startswith("*)", i) and depth > 0:
+            depth -= 1
+            i += 2
+        else:
+            if depth == 0:
+                out.append(s[i])
+            i += 1
+    return "".join(out)
+
+
 def parse_allow_pairs():
-    src = common.strip_coq_comments(open(os.path.join(common.COQ, "props", "C11.v")).read())
+    src = _strip_comments_keep_strings(open(os.path.join(common.COQ, "props", "C11.v")).read())
     return set(re.findall(r'\(\s*"([^"]+)"\s*,\s*(\w+)\s*\)', src))
 
 
